@@ -11,7 +11,8 @@ from . import _reg
 ID = "C09"
 P = "Webauthn.Props.C09."
 THEOREMS = [P + n for n in ("scheme_is_declared", "dispatch_complete", "no_other_scheme", "accepted_means_valid", "raw_u2f",
-                            "to_keyspec_ec2", "to_keyspec_rsa", "to_keyspec_okp", "beNat_leading_zero", "okp_only_eddsa")] + \
+                            "to_keyspec_ec2", "to_keyspec_rsa", "to_keyspec_okp",
+                            "decode_encode_ec2", "decode_encode_rsa", "decode_encode_okp", "beNat_leading_zero", "okp_only_eddsa")] + \
            ["Webauthn.sigDispatchTable_ok", "Webauthn.sigDispatchDefault_ok", "Webauthn.sigPlan_sound"]
 LEAN_TARGETS = ["Props.C09"]
 SPEC_FILES = ["Spec/Core.lean"]
@@ -87,6 +88,15 @@ def work(tasks, idx):
             res.evaluations += 1
             tie.check({"op": "cose_to_pubkey", "b": b.hex()}, code, label=["decode", kind], direction="eq")
             from ..oracle import key_view
+            # the closed-form encoders of the decode_encode_* theorems are what cbor2 emits for this key
+            m = cbor2.loads(b)
+            if m[1] == 2:
+                enc = {"op": "encode_cose", "kind": "ec2", "alg": str(alg), "crv": str(m[-1]), "a": m[-2].hex(), "b": m[-3].hex()}
+            elif m[1] == 3:
+                enc = {"op": "encode_cose", "kind": "rsa", "alg": str(alg), "crv": "0", "a": m[-1].hex(), "b": m[-2].hex()}
+            else:
+                enc = {"op": "encode_cose", "kind": "okp", "alg": str(alg), "crv": "0", "a": m[-2].hex(), "b": ""}
+            tie.check(enc, {"k": "accept", "record": b.hex()}, label=["encode", kind], direction="eq")
             if code["k"] != "accept" or code["record"] != key_view(priv.public_key()):
                 res.violations.append({"why": f"COSE {kind} key does not decode to the same public key: {code}", "b": b.hex(),
                                        "match": {"op": "decode_cose", "kind": kind}})
